@@ -118,7 +118,16 @@ fn run_inner(p: &Program) -> Result<Outcome, Outcome> {
         Allow { refused_claims: p.allow_refused_claims, late_abort: p.allow_late_abort, listener_after_destroy: p.allow_listener_after_destroy },
     )?;
     let mut idle_slot = None;
-    if p.idle_early {
+    // Known finding F7 (reported under C15): a connection that is still forwarding client
+    // messages when the broker has already left its run loop ends with UnexpectedShutdown and the
+    // client sees a disconnect instead of the Shutdown message. Here that needs a broker-initiated
+    // connection shutdown while the broker may stop on idle; excluded by construction.
+    let kick = p.clients.iter().any(|c| c.final_mode == FinalMode::BrokerKick);
+    let idle_early = p.idle_early && !kick;
+    if p.idle_early && kick {
+        rig.world.count("excluded:f7");
+    }
+    if idle_early {
         let mut bh = rig.net.broker.clone();
         let (_, s) = rig.net.sim.spawn_out("driver:shutdown_idle", counted(async move { bh.shutdown_idle().await }));
         idle_slot = Some(s);
@@ -264,6 +273,7 @@ fn run_inner(p: &Program) -> Result<Outcome, Outcome> {
         ("excluded:f2", "excluded:f2"),
         ("excluded:f5", "excluded:f5"),
         ("excluded:f6", "excluded:f6"),
+        ("excluded:f7", "excluded:f7"),
         ("listener-polled-after-destroy", "listener-polled-after-destroy"),
         ("late-abort", "late-abort"),
         ("call:answered", "call:ok"),
